@@ -601,7 +601,9 @@ pub fn supervise(args: &Args) -> i32 {
         let _ = std::fs::create_dir_all(&tdir);
         let _ = std::fs::write(format!("{tdir}/{}.json", args.id), serde_json::to_string_pretty(&evidence).unwrap() + "\n");
     }
-    if sum("executions") == 0 || sum("states") == 0 {
+    // (when every worker died in the subject code and the death reproduces in isolation there are no executions
+    // to count, but there is a confirmed violation to report)
+    if confirmed.is_empty() && (sum("executions") == 0 || sum("states") == 0) {
         eprintln!("machinery: vacuous run (no executions)");
         return 2;
     }
